@@ -22,12 +22,14 @@ from contracts.c13 import unit_bin  # noqa
 from contracts.c14 import unit_encode, unit_charliteral  # noqa
 from contracts.c15 import unit_rad50  # noqa
 from contracts.deferred_c import unit_awaiting, unit_construct, unit_wait, unit_promise  # noqa
-from contracts.compiler_c import unit_compile_block, unit_set_link_address  # noqa
+from contracts.compiler_c import unit_compile_block, unit_set_link_address, unit_dispatch  # noqa
 unit_include_c = compiler_c.unit_include
 from contracts.symbols_c import unit_define, unit_resolve, unit_resolve_register  # noqa
 from contracts.meta_c import unit_zero_size, unit_include, unit_insert_file, unit_repeat  # noqa
 from contracts.cli_c import unit_main_cli  # noqa
 from pyvc import driver
+from contracts import tokens_c
+from contracts.tokens_c import unit_quoted_string, unit_instruction_pointer, unit_angle_char, unit_get_as_str, unit_string_concat  # noqa
 
 ID = "C08"
 EXPLANATION = ("function-level exception freedom and termination, for all values of the inputs; totality over 'all source texts' is NOT decided "
@@ -352,6 +354,9 @@ def units(tier):
     for ctxt in ("file", "repeat"):
         for bs in (False, True):
             us.append(("compile_block[%s,%s]" % (ctxt, bs), "unit_compile_block", dict(context=ctxt, base_settled=bs, start_kind="promise")))
+    for k in compiler_c.DISPATCH_KINDS:
+        us.append(("dispatch[%s]" % k, "unit_dispatch", dict(kind=k)))
+    us += tokens_c.all_units()
     for settled in (False, True):
         us.append(("set_link_address[%s]" % settled, "unit_set_link_address", dict(settled=settled, had_where=settled, lazy=True)))
     for what, local in (("label", False), ("label", True), ("assignment", False)):
@@ -392,6 +397,8 @@ def replay(o, tree):
     src = None
     if k == "pseudo":
         return c05.replay(o, tree)
+    if k == "anglechar":
+        return tokens_c.replay_anglechar(o, tree)
     if k == "mutation":
         bad = []
         for sig, (cnt, s_) in list(cfg.get("new", {}).items())[:12]:
